@@ -22,7 +22,7 @@ Oracle (exactly the statement):
 """
 import errno
 
-from mc import bfs, par
+from mc import bfs, par, sched
 from mc.evidence import Run, sig_exc
 from ref import addrtable
 from sim import llcpump as lp
@@ -206,6 +206,7 @@ class Spec(object):
         acts += [('resolve', n) for n in RESOLVE_NAMES]
         acts += [('resolve_many',) + ns for ns in RESOLVE_MANY]
         acts += [('resolve_late',) + ns for ns in RESOLVE_LATE]
+        acts += [('resolve_threads',) + ns for ns in RESOLVE_LATE]
         acts += [('connect', d) for d in CONNECT_NAMES + CONNECT_ADDRS]
         if free and w.bkeep is None:
             acts += [('connect_keep', d) for d in KEEP_NAMES]
@@ -507,6 +508,87 @@ class Spec(object):
             sd.sent.clear()
             sd.sent.update(saved[2])
 
+    def op_resolve_threads(self, w, viol, n1, n2):
+        """Two application threads of the peer in resolve(): the second
+        call is made while the request of the first is on the wire; the
+        answers come back in two SNL PDUs, so the answer to the first wakes
+        the second caller as well.  Judged: the values the two calls
+        RETURN (the other resolve actions look at the answers recorded)."""
+        B, A = w.B, w.A
+        sd = B.sap[1]
+        saved = (dict(sd.snl), list(sd.tids), dict(sd.sent))
+        for name in (n1, n2):
+            sd.snl.pop(as_bytes(name), None)
+        s = sched.Sched(sched.Chooser(), timer_deviations=False,
+                        max_steps=200000)
+        res, gate = {}, [False]
+
+        def caller(k, name):
+            def body():
+                if k == 2:
+                    sched.S.block(lambda: gate[0], None, 'wait', 'gate')
+                try:
+                    res[k] = ('ret', B.resolve(name))
+                except sched.Abort:
+                    raise
+                except Exception as e:
+                    res[k] = ('exc', e)
+            return body
+
+        def pump():
+            sched.vsleep(0.001)             # caller 1 waits for its answer
+            f = lp.xfer(B, A)               # SDREQ for n1 on the wire
+            if f is None or f.error or f.sent.name != 'SNL':
+                res['skip'] = 'first request not sent'
+                return
+            gate[0] = True
+            sched.vsleep(0.001)             # caller 2 queued its request
+            lp.xfer(A, B)                   # answer for n1 only
+            sched.vsleep(0.001)
+            for _ in range(6):              # request / answer for n2, ...
+                f1 = lp.xfer(B, A)
+                f2 = lp.xfer(A, B)
+                sched.vsleep(0.001)
+                if f1 is None and f2 is None:
+                    break
+        try:
+            s.spawn(caller(1, n1), 'resolve1')
+            s.spawn(caller(2, n2), 'resolve2')
+            s.spawn(pump, 'pump')
+            s.run()
+            pt = s.thread('pump')
+            if pt.exc is not None and not isinstance(pt.exc, sched.Abort):
+                raise pt.exc
+            if 'skip' in res:
+                # (n1 was answered from the well-known service list or so:
+                # nothing was outstanding, the single resolve action covers it)
+                self.count('resolve_threads_skipped')
+                return
+            self.count('resolve_threads')
+            for k, name in ((1, n1), (2, n2)):
+                r = res.get(k)
+                truth = w.model.resolve(as_bytes(name))
+                if r is None:
+                    viol.append(('C17|resolve|no answer|caller %d of two '
+                                 'threads still waits|nfc.llcp.llc.'
+                                 'ServiceDiscovery.resolve' % k,
+                                 dict(names=(n1, n2), name=name,
+                                      table=self.table(w))))
+                elif r[0] == 'exc':
+                    viol.append(('C17|resolve|raises %s|two threads|nfc.llcp.'
+                                 'llc.ServiceDiscovery.resolve' % sig_exc(r[1]),
+                                 dict(names=(n1, n2), error=repr(r[1]))))
+                else:
+                    self._judge_value(w, viol, name, r[1], 'two threads, '
+                                      'caller %d, answers in two SNL PDUs' % k)
+        finally:
+            lp.quiesce(A, B)
+            sd.snl.clear()
+            sd.snl.update(saved[0])
+            sd.tids[:] = saved[1]
+            sd.sent.clear()
+            sd.sent.update(saved[2])
+
     def _resolve_many(self, w, viol, names):
         B = w.B
         for name in names:
@@ -523,7 +605,9 @@ class Spec(object):
             if st[0] != 'blocked':
                 raise RuntimeError("resolve_many: %r" % (st,))
             pending.append(name)
-        if len(B.sap[1].sdreq) != len(pending):
+        if len(B.sap[1].sdreq) < len(pending):
+            # (more: a call that returned without its answer - judged above -
+            # left its request behind)
             raise RuntimeError("resolve_many: requests not queued together")
         lp.quiesce(w.A, B)
         self.count('resolve_many')
